@@ -82,7 +82,17 @@ Toggle ==
   /\ last' = [c |-> Call("toggle", "", <<IF caching THEN 0 ELSE 1>>, <<>>), err |-> FALSE, out |-> <<>>]
 
 CStep == Mutate \/ Toggle \/ \E v \in CVert, k \in Keys : Query(v, k)
-CNext == CStep /\ hist' = IF HistLen > 0 THEN Append(hist, [cf |-> caching, c |-> last'.c, t |-> S']) ELSE hist
+\* beyond the listed properties: the counters of Vertex.total_cache_stats().  A query made while the flag is on
+\* is a HIT (entry present) or a MISS; a miss that does not raise INSERTS an entry.
+IsQuery == last'.c.op = "nb"
+WasHit  == IsQuery /\ caching /\ \E k \in Keys : /\ KeySpec[k].d = last'.c.a[2] /\ KeySpec[k].u = last'.c.a[3]
+                                                /\ memo[last'.c.a[1]][k] # Absent
+WasMiss == IsQuery /\ caching /\ ~WasHit
+DidInsert == IsQuery /\ memo' # memo
+CNext == CStep /\ hist' = IF HistLen > 0
+                            THEN Append(hist, [cf |-> caching, c |-> last'.c, t |-> S',
+                                               hit |-> WasHit, miss |-> WasMiss, ins |-> DidInsert])
+                            ELSE hist
 
 CSpec == CInit /\ [][CNext]_cvars
 
